@@ -86,6 +86,9 @@ func (P *Program) callKey(f *Frame, c *ssa.CallCommon) (key string, sig *types.S
 			case *ssa.Alloc:
 				// parameter spilled to a local
 				return "param:" + P.fnKey(f.fn) + "." + a.Comment, sig, nil
+			case *ssa.FreeVar:
+				// function value captured by this closure
+				return "freevar:" + P.fnKey(f.fn) + "." + a.Name(), sig, nil
 			}
 		}
 	case *ssa.Parameter:
@@ -185,7 +188,7 @@ func (f *Frame) execCall(c *ssa.CallCommon, result ssa.Value, pos token.Pos) EV 
 
 	_, con, kind := vc.P.resolveCall(f, c)
 	// a closure value known at this point is inlined
-	if kind == "unknown" || strings.HasPrefix(key, "param:") || strings.HasPrefix(key, "field:") || strings.HasPrefix(key, "dynamic:") {
+	if kind == "unknown" || strings.HasPrefix(key, "param:") || strings.HasPrefix(key, "field:") || strings.HasPrefix(key, "dynamic:") || strings.HasPrefix(key, "freevar:") {
 		if !c.IsInvoke() && callee == nil {
 			if cl, ok := f.val(c.Value).(*Closure); ok && kind != "contract" {
 				res, st, _ := f.inlineCall(cl.fn, args, cl.bindings, f.cur, f.curReach)
